@@ -82,9 +82,9 @@ func (c *Ctx) Check(cond bool, rule, construct, pos, okWhy, badWhy string) bool 
 // Floor declares the minimum number of real (non-control) instances a rule must match.
 func (c *Ctx) Floor(rule string, n int) { c.floors[rule] = n }
 
-func (c *Ctx) Analysed(fn string)  { c.funcs[fn] = true }
-func (c *Ctx) CallSites(n int)     { c.calls += n }
-func (c *Ctx) Note(s string)       { c.notes = append(c.notes, s) }
+func (c *Ctx) Analysed(fn string)   { c.funcs[fn] = true }
+func (c *Ctx) CallSites(n int)      { c.calls += n }
+func (c *Ctx) Note(s string)        { c.notes = append(c.notes, s) }
 func (c *Ctx) Observation(s string) { c.observed = append(c.observed, s) }
 
 // ---- known findings ---------------------------------------------------------
